@@ -258,8 +258,29 @@ def run(ctx):
                 pairs.append(('f.', w))
     model = ctx.driver.batch([{'op': 'c19.match', 'name': a, 'word': b} for a, b in pairs])
     n_dis = 0
+    have_internal = hasattr(shlibs, '_ldd_library_pattern')
+    if not have_internal:
+        ctx.broken.append('correspondence c19.match: giscanner.shlibs._ldd_library_pattern no longer exists; '
+                          'the matcher is exercised through resolve_from_ldd_output only')
+
+    def impl_match(name, word):
+        """the matcher as seen through the public function (one request, one-word listing)"""
+        if have_internal:
+            return shlibs._ldd_library_pattern(name).match(word) is not None
+        if not word or any(ch.isspace() for ch in word) or word.endswith(':'):
+            return None
+        os.chdir(scratch)
+        try:
+            try:
+                return len(shlibs.resolve_from_ldd_output([name], word)) == 1
+            except SystemExit:
+                return False
+        finally:
+            os.chdir(ctx.scratch)
     for (a, b), m in zip(pairs, model):
-        impl = shlibs._ldd_library_pattern(a).match(b) is not None
+        impl = impl_match(a, b)
+        if impl is None:
+            continue
         cnt.hit('match:%s' % impl)
         cnt.case(['m', a, b], nontrivial=('lib' in b))
         if impl != m:
@@ -442,7 +463,13 @@ def replay(ctx, rep):
     shlibs, utils = impl_setup()
     r = rep['replay']
     if r['kind'] == 'match':
-        impl = shlibs._ldd_library_pattern(r['name']).match(r['word']) is not None
+        if hasattr(shlibs, '_ldd_library_pattern'):
+            impl = shlibs._ldd_library_pattern(r['name']).match(r['word']) is not None
+        else:
+            try:
+                impl = len(shlibs.resolve_from_ldd_output([r['name']], r['word'])) == 1
+            except SystemExit:
+                impl = False
         want = spec_matches(r['name'], r['word'])
         print('impl=%r required=%r' % (impl, want))
         return 0 if impl == want else 1
